@@ -18,7 +18,14 @@ N = {'quick': 2400, 'thorough': 240000}
 def base_text(base, variant):
     mn, f = base
     fmt = rvref.fmt_of(mn)
-    r = lambda n: 'x%d' % n
+    cnt = [0]
+
+    def r(n):
+        # variant 2: the same register is spelled differently in each operand position (xN, ABI alias, number)
+        if variant != 2:
+            return 'x%d' % n
+        cnt[0] += 1
+        return ['x%d' % n, ir.ABI[n], str(n)][(cnt[0] + n) % 3]
     if fmt == 'R':
         return '%s %s, %s, %s' % (mn, r(f['rd']), r(f['rs1']), r(f['rs2']))
     if fmt == 'SHIFT':
@@ -53,7 +60,7 @@ def elig_job(lo, hi):
         cls, mn, f = rvref.dec16(h)
         if cls == rvref.LEGAL:
             todo.append((h, mn, rvref.expand16(mn, f)))
-    for variant in (0, 1):
+    for variant in (0, 1, 2):
         for i in range(0, len(todo), 800):
             chunk = todo[i:i + 800]
             lines = [base_text(b, variant) for _, _, b in chunk]
@@ -149,7 +156,8 @@ def run(tier):
     chk.extra['eligibility_lines'] = elig
     chk.extra['monotonicity_programs'] = chk.res.evaluations - elig
     chk.rule = ('(a) complete: the expansion of each of the 28,461 legal non-hint RV32C halfwords written as text with literal '
-                'operands in two spellings (reg, imm / imm(reg); signed / unsigned upper immediate), assembled with -c, must be '
+                'operands in three spellings (reg, imm / imm(reg); signed / unsigned upper immediate; registers as xN / ABI alias / number mixed '
+                'within one instruction), assembled with -c, must be '
                 '16 bits and effect-equal - every element is non-trivial, distinct by construction; (b) Hypothesis IR programs: '
                 'len and every label with -c <= without; non-trivial = -c moves some label down; distinct by source')
     return chk.finish()
